@@ -24,6 +24,7 @@
 #include "tickit.h"
 #include "griddrv.h"
 #include <stdint.h>
+#include <sys/time.h>
 
 #define MAXW 24
 #define MAXSHIFT 64
@@ -226,8 +227,8 @@ static void dump_grid(void)
     for(int c = 0; c < gd->cols; c++) {
       GDCell *cell = gd_cell(gd, l, c);
       row[4 * c]     = glyph_char(cell->glyph);
-      row[4 * c + 1] = (cell->fg >= -1 && cell->fg <= 8) ? '0' + cell->fg + 1 : '?';
-      row[4 * c + 2] = (cell->bg >= -1 && cell->bg <= 8) ? '0' + cell->bg + 1 : '?';
+      row[4 * c + 1] = (cell->fg >= -1 && cell->fg <= 40) ? '0' + cell->fg + 1 : '!';
+      row[4 * c + 2] = (cell->bg >= -1 && cell->bg <= 40) ? '0' + cell->bg + 1 : '!';
       row[4 * c + 3] = cell->attrs == 0 ? '0' : cell->attrs == 1 ? '1' : '!';
     }
     row[n] = 0;
@@ -286,6 +287,9 @@ static void engine_op(int argc, char **argv)
 {
   const char *op = argv[0];
   evlen = 0; evbuf[0] = 0;
+  /* no operation needs more than a few milliseconds of CPU: a loop that does not terminate becomes `CRASH signal=26` */
+  struct itimerval lim = { .it_interval = { 0, 0 }, .it_value = { 0, 400000 } };
+  setitimer(ITIMER_VIRTUAL, &lim, NULL);
   if(strcmp(op, "new") == 0) {
     if(argc != 6 || tt) { obs("bad-op"); return; }
     int lines = atoi(argv[2]), cols = atoi(argv[3]);
